@@ -69,6 +69,12 @@ def setEntry (a : QMat) (i j : Int) (v : Rat) : QMat :=
   | some p, some q => QMat.ofFn a.rows a.cols (fun r c => if r = p ∧ c = q then v else a.get r c)
   | _, _ => a
 
+/-- `a[:, j]`: a 1-D array, kept as an `a.rows × 1` column (empty where numpy raises) -/
+def colAt (a : QMat) (j : Int) : QMat :=
+  match index? a.cols j with
+  | some q => QMat.block a 0 a.rows q (q + 1)
+  | none => QMat.zero 0 0
+
 /-- `a.shape` -/
 def shape (a : QMat) : Int × Int := ((a.rows : Int), (a.cols : Int))
 
